@@ -66,6 +66,21 @@ Definition ZNum : NumOps := {|
 Example C16_proviso_satisfiable : @NoOverflow ZNum.
 Proof. constructor; reflexivity. Qed.
 
+(* the number law is satisfiable too: a two-valued number type printed as 0 / 1 *)
+Definition BitNum : NumOps := {|
+  num := bool; num_eqb := Bool.eqb; num_ltb := fun a b => negb a && b; num_leb := fun a b => negb a || b;
+  num_add := orb; num_div := fun a _ => a; num_of_Z := fun z => negb (Z.eqb z 0); num_abs := fun a => a;
+  num_ceil := fun a => a; num_floor := fun a => a; num_finite := fun _ => true; num_same := Bool.eqb;
+  num_parse_json := fun t => match t with [49%N] => Some true | [48%N] => Some false | _ => None end;
+  num_parse_go := fun _ => None; num_print := fun b => if b then [49%N] else [48%N] |}.
+Example C16_number_law_satisfiable : @NumText BitNum.
+Proof.
+  constructor.
+  - intros [|] [|c r] _ Ht; try reflexivity; destruct Ht as [->|[->| ->]]; reflexivity.
+  - intros [|] _; reflexivity.
+  - intros [|] _; eexists _, _; (split; [reflexivity | right; reflexivity]).
+Qed.
+
 (* avg(`[]`) is null, to_number('inf') and to_number('nan') are null, sum(`[]`) is 0 *)
 Definition lit0 : @expr FloatNum := ELit (VArr []).
 Example C16_example :
